@@ -409,6 +409,63 @@ def render_cc_file(items, base_id):
     return "".join(lines) + "".join(main)
 
 
+# ---------------------------------------------------------------- chains the DSL is documented to reject
+
+DOUBLE_REV = [
+    # (name, konst chain after the source, std chain after `.iter()`)
+    ("rev,rev,collect", "rev(), rev(), for_each(|e| v.push(*e))", "rev().rev().copied().collect::<Vec<u32>>()"),
+    ("rev,map,rev,collect", "rev(), map(|x| *x * 2), rev(), for_each(|e| v.push(e))", "rev().map(|x| *x * 2).rev().collect::<Vec<u32>>()"),
+    ("filter,rev,rev,next", "filter(|x| **x > 2), rev(), rev(), next()", "filter(|x| **x > 2).rev().rev().next()"),
+    ("rev,rfind", "rev(), rfind(|x| **x % 2 == 0)", "rev().rfind(|x| **x % 2 == 0)"),
+    ("rev,rfold", "rev(), rfold(0u32, |acc, &x| acc.wrapping_mul(10).wrapping_add(x))", "rev().rfold(0u32, |acc, &x| acc.wrapping_mul(10).wrapping_add(x))"),
+    ("rev,rposition", "rev(), rposition(|x| *x % 2 == 0)", "rev().rposition(|x| *x % 2 == 0)"),
+    ("rev,copied,rev,rfind", "rev(), copied(), rev(), rfind(|x| *x > 1)", "rev().copied().rev().rfind(|x| *x > 1)"),
+    ("rev,rev,rev,nth", "rev(), rev(), rev(), nth(1)", "rev().rev().rev().nth(1)"),
+]
+
+DOUBLE_REV_TEMPLATE = r"""
+#![allow(unused, clippy::all)]
+fn main() {
+    let inputs: [&[u32]; 5] = [&[], &[4], &[1, 2], &[1, 2, 3, 4, 5, 6], &[6, 1, 1, 4, 3]];
+    let mut bad = 0;
+    for xs in inputs {
+        let k = { let mut v: Vec<u32> = Vec::new(); let r = konst::iter::eval!(xs, %(k)s); (format!("{:?}", r), v) };
+        let s = { let v: Vec<u32> = Vec::new(); let r = xs.iter().%(s)s; (format!("{:?}", r), v) };
+        // for_each chains deliver through `v`, the others through the result
+        let kk = if k.1.is_empty() { k.0.clone() } else { format!("{:?}", k.1) };
+        let ss = if s.0 == "()" { s.0.clone() } else { s.0.clone() };
+        let same = if k.0 == "()" { format!("{:?}", k.1) == s.0 } else { k.0 == s.0 };
+        if !same { bad += 1; println!("DIFF\t{:?}\tkonst={} {:?}\tstd={}", xs, k.0, k.1, s.0); }
+    }
+    println!("DONE\t{}", bad);
+}
+"""
+
+
+def run_double_reversal(cx, out, hist):
+    """The DSL documents that a second reversing method is a compile error. A change that lets such a chain
+    compile makes it a chain like any other: it is then executed and must equal the std chain."""
+    srcs = [cx.write("c10_dblrev_%d.rs" % i, DOUBLE_REV_TEMPLATE % {"k": k, "s": s}) for i, (_, k, s) in enumerate(DOUBLE_REV)]
+    comp = cx.compile_many(srcs)
+    n = 0
+    for (name, k, s), src, (rc, se, outp) in zip(DOUBLE_REV, srcs, comp):
+        if rc is None:
+            raise kv.Inconclusive("watchdog: rustc did not finish on %s" % src)
+        n += 1
+        if rc != 0:
+            hist["double-reversal/rejected-at-compile-time"] = hist.get("double-reversal/rejected-at-compile-time", 0) + 1
+            continue
+        rc2, so, se2 = cx.run(outp, timeout=600)
+        if rc2 != 0:
+            out.fail("double-reversal-compiles-and-panics:" + name, "iterator DSL", "eval!(xs, %s)" % k, "rc=%s %s" % (rc2, (se2 or "")[-200:]), "std: xs.iter()." + s, "generated-program", cmd=outp, source=src)
+            continue
+        diffs = [l for l in (so or "").splitlines() if l.startswith("DIFF")]
+        hist["double-reversal/compiles"] = hist.get("double-reversal/compiles", 0) + 1
+        if diffs:
+            out.fail("double-reversal-compiles-and-differs-from-std:" + name, "iterator DSL", "eval!(xs, %s) | %s" % (k, diffs[0][:300]), "%d of 5 inputs differ" % len(diffs), "std: xs.iter()." + s, "generated-program", cmd=outp, source=src)
+    return n
+
+
 # ---------------------------------------------------------------- engine
 
 
@@ -539,6 +596,7 @@ def run(out, tier, seed):
                 elif exp.startswith("K1") and bits == 2:
                     out.failures.append({"sig": exp, "api": "collect_const!", "input": "cc program %d input %d: %s | %s" % (pid, ii, ", ".join([a.k for a in p.ads]), detail[:300]), "got": "equals the hoisted-reversal chain instead of std", "want": "std chain",
                                          "engine": "generated-program", "variant": "", "sub": "", "cmd": b, "count_for_sig": 1})
+    evals += run_double_reversal(cx, out, hist)
     out.add_counts("generated-programs", evals, "c10-programs", nontrivial, samples,
                    rule="one evaluation = one generated program (konst eval!/for_each!/collect_const! chain) on one input, compared with the identical std method chain and, when the chain reverses, with the std chain whose reversal is hoisted to the source (three-way oracle S/H/K1, DESIGN.md §6/C10); distinct_nontrivial = number of distinct generated programs with at least one adapter",
                    exhaustive="every type-correct chain of depth <= %d (quick tier: plus every depth-3 chain containing rev() with the for_each/fold consumers) over {copied,map,map-to-pair,filter,filter_map,flat_map,flatten,enumerate,zip(shorter|longer),skip,take,skip_while,take_while,rev} x 3 sources (slice, range, nested slice+flatten) x every consumer (%d programs) + %d seeded random chains of depth %s; each over all arrays of length <= 4 over {0,1,4,6} (341; nested source: 91) x n in 0..=3; %d collect_const! programs x 4-6 const inputs" % (3 if thorough else 2, exhaustive_n, nrand, "4-6" if thorough else "3-5", len(ccs)),
